@@ -19,7 +19,8 @@ Inductive op :=
   | OWrappingAdd | OWrappingSub | OWrappingMul
   | OSaturatingAdd | OSaturatingSub | OSaturatingMul
   | OOverflowingAdd | OOverflowingSub | OOverflowingMul
-  | OWideMul | OSqrt | OFeltDiv
+  | OWideMul | OWideSquare | OSqrt | OFeltDiv
+  | OMulModN | OInvMod | ODivModN | OU512DivRem
   | OInto (t : ity) | OTryInto (t : ity).
 
 Inductive outcome := Success (l : list Z) | Panic (l : list Z) | Failed.
@@ -91,6 +92,7 @@ Definition wide (t : ity) : option ity :=
   match t with
   | U w => Some (if w =? 128 then U256T else U (2 * w))
   | I w => if w =? 128 then None else Some (I (2 * w))
+  | U256T => Some U512T
   | _ => None
   end.
 
@@ -150,9 +152,17 @@ Definition eval (o : op) (t : ity) (args : list Z) : option outcome :=
   | OOverflowingMul, [a; b] => Some (overflowing t (a * b))
   | OWideMul, [a; b] =>
       match wide t with Some wt => Some (Success (enc wt (a * b))) | None => None end
+  | OWideSquare, [a] =>
+      match wide t with Some wt => Some (Success (enc wt (a * a))) | None => None end
   | OSqrt, [a] => Some (Success [Z.sqrt a])
+  | OMulModN, [a; b; n] =>
+      Some (if n =? 0 then Failed else Success (enc U256T ((a * b) mod n)))
+  | OU512DivRem, [a; b] =>
+      Some (if b =? 0 then Failed else Success (enc U512T (a / b) ++ enc U256T (a mod b)))
   | OInto t2, [a] => Some (Success (enc t2 a))
   | OTryInto t2, [a] => Some (checked t2 (conv_src t t2 a))
-  | OFeltDiv, [a; b] => None      (* needs the field inverse: checked by the impl-level oracle only *)
+  | OFeltDiv, [a; b] => None      (* specified by its defining relation in Corr.v *)
+  | OInvMod, _ => None            (* idem *)
+  | ODivModN, _ => None           (* idem *)
   | _, _ => None
   end.
